@@ -62,7 +62,7 @@ echo "$ID: demo without patch exit=$WITHOUT, with patch exit=$WITH, stable-pass 
 if [ $WITHOUT -eq 0 ] && [ $WITH -ne 0 ] && [ "$SUITE" = "544/544" ]; then
   D=/verif/seeded/$ID; rm -rf $D; mkdir -p $D/demo
   cp $SRC/patch.diff $D/; cp -r $SRC/demo/. $D/demo/; cp $SRC/README.md $D/ 2>/dev/null
-  python3 - "$D" "${PROP%r2}" "$DEMOS" "$RUNRE" "$SUITE" <<'PY'
+  python3 - "$D" "${PROP%r[0-9]}" "$DEMOS" "$RUNRE" "$SUITE" <<'PY'
 import json,sys,re
 d,prop,demos,runre,suite=sys.argv[1:6]
 readme=open(d+"/README.md").read() if __import__("os").path.exists(d+"/README.md") else ""
